@@ -7,6 +7,20 @@ VERIF = Path(__file__).resolve().parent.parent
 
 # property id -> (design section, what the theorems give, what is assumed)
 CLAIMS = {
+    "C19": ("8/C19",
+            "Lean 4 theorems about a protocol model of load_csv_dataset_from_remote / _fetch_remote with any number of loader "
+            "processes, arbitrary interleavings, arbitrary network answers and a kill at any step boundary: cache_inv_reachable "
+            "/ entry_absent_or_complete (every cache entry is absent or the parsed verified payload of the dataset owning the "
+            "slot, after EVERY finite event sequence), unverified_never_used (a payload with a different SHA-256 leads to "
+            "OSError and is never returned or cached), retry_bound (<= n_retries failures absorbed, the (n_retries+1)-th is "
+            "propagated with its own kind, other exceptions at once), hit_without_network, flags_table, later_load_succeeds "
+            "(from every reachable world, whatever garbage crashes left), order_independent for datasets with distinct slots "
+            "and shared_slot_crosses (why that hypothesis is needed). Distinct slots of the real tables: C18's kernel-decided "
+            "cache_slots_nodup. Tie: trace validation of the real loader (fault scripts, forked kills at every boundary, "
+            "concurrent processes) against the model.",
+            "POSIX atomic rename, unique temporary directory names, process kill (no power loss / fsync reasoning), CPython "
+            "closing the pickle file before os.rename, SHA-256 as the identity of payloads; real concurrency is sampled - "
+            "the protocol is proved for all schedules; validate_checksum=False and negative n_retries are not modelled."),
     "C18": ("8/C18",
             "Lean 4: the dataset tables are regenerated from the loader modules of the working tree by translator T2 and the "
             "finite statements are re-decided by the kernel on every run (decide +kernel, no axioms): every documented name in "
@@ -121,7 +135,7 @@ NOT_YET = {
 ALL = [f"C{n:02d}" for n in range(1, 21)]
 
 # properties whose theorems, tie and check are complete enough to be claimed
-BUILT = ["C01", "C03", "C04", "C05", "C06", "C07", "C10", "C12", "C14", "C17", "C18"]
+BUILT = ["C01", "C03", "C04", "C05", "C06", "C07", "C10", "C12", "C14", "C17", "C18", "C19"]
 
 
 
